@@ -630,9 +630,35 @@ def c19() -> List[M]:
     ]
 
 
+def seeded() -> List[M]:
+    """The changes kept under /verif/seeded: every breaking change written by an independent sub-agent must be reported
+    by the checks recorded as detecting it; every behaviour-preserving refactoring must leave all 20 checks silent."""
+    import glob
+    import json
+    import os
+    root = os.path.dirname(os.path.dirname(os.path.abspath(__file__)))
+    out: List[M] = []
+    for meta in sorted(glob.glob(os.path.join(root, "seeded", "*", "meta.json"))):
+        d = os.path.dirname(meta)
+        name = os.path.basename(d)
+        try:
+            info = json.load(open(meta))
+        except ValueError:
+            continue
+        for pid, lines in sorted((info.get("detected_by") or {}).items()):
+            if any("violated" in ln for ln in lines):
+                out.append(M(pid, "seed:" + name, "@patch:seeded/%s/patch.diff" % name, "", "", "violation"))
+    for patch in sorted(glob.glob(os.path.join(root, "seeded", "benign", "*", "patch.diff"))):
+        name = os.path.basename(os.path.dirname(patch))
+        for k in range(1, 21):
+            out.append(M("C%02d" % k, "refactoring:" + name, "@patch:seeded/benign/%s/patch.diff" % name, "", "", "clean"))
+    return out
+
+
 def corpus() -> List[M]:
     out: List[M] = []
     for name, fn in sorted(globals().items()):
         if len(name) == 3 and name[0] == "c" and name[1:].isdigit() and callable(fn):
             out.extend(fn())
+    out.extend(seeded())
     return out
